@@ -85,6 +85,8 @@ def noExit : Cmd → Bool
   | .cmdsubst c => noExit c
   | .evalC c => noExit c
   | .pipe _ last => noExit last
+  | .fault _ => true
+  | .callT _ => true
 def noExitL : Cmds → Bool
   | .nil => true
   | .cons c cs => noExit c && noExitL cs
@@ -145,23 +147,23 @@ private theorem qstep_exec (fuel : Nat) (ihE : QE fuel) (ihL : QL fuel) (ihA : Q
     simp only [postC, Option.some.injEq, Prod.mk.injEq] at hp
     rw [← hp.2]; exact h0
   cases c with
-  | leaf id codes => simp only [exec] at h; exact key _ _ normal_ne_exit h
-  | probe => simp only [exec] at h; exact key _ _ normal_ne_exit h
+  | leaf id codes => (rw [exec.eq_def] at h; simp only at h); exact key _ _ normal_ne_exit h
+  | probe => (rw [exec.eq_def] at h; simp only at h); exact key _ _ normal_ne_exit h
   | seq cs =>
-    simp only [exec] at h
+    (rw [exec.eq_def] at h; simp only at h)
     simp only [noExit] at hne
     exact ihL fs cs s s' r hfs hne h
   | andOr first rest =>
     simp only [noExit, Bool.and_eq_true] at hne
     cases rest <;>
-    · simp only [exec, Bool.or_false, Bool.or_true] at h
+    · (rw [exec.eq_def] at h; simp only [Bool.or_false, Bool.or_true] at h)
       split at h
       · simp at h
       · rename_i s1 r1 he
         exact ihA fs _ s1 s' r1 r hfs hne.2 (ihE fs first s s1 r1 hfs hne.1 he) h
   | bang c =>
     simp only [noExit] at hne
-    simp only [exec] at h
+    (rw [exec.eq_def] at h; simp only at h)
     split at h
     · simp at h
     · rename_i s1 r1 he
@@ -170,7 +172,7 @@ private theorem qstep_exec (fuel : Nat) (ihE : QE fuel) (ihL : QL fuel) (ihA : Q
       exact ihE fs c s s1 r1 hfs hne he
   | if1 cond thn =>
     simp only [noExit, Bool.and_eq_true] at hne
-    simp only [exec] at h
+    (rw [exec.eq_def] at h; simp only at h)
     split at h
     · simp at h
     · rename_i s1 r1 he
@@ -185,7 +187,7 @@ private theorem qstep_exec (fuel : Nat) (ihE : QE fuel) (ihL : QL fuel) (ihA : Q
         · exact keyC _ _ normal_ne_exit h
   | if2 cond thn els =>
     simp only [noExit, Bool.and_eq_true] at hne
-    simp only [exec] at h
+    (rw [exec.eq_def] at h; simp only at h)
     split at h
     · simp at h
     · rename_i s1 r1 he
@@ -202,39 +204,39 @@ private theorem qstep_exec (fuel : Nat) (ihE : QE fuel) (ihL : QL fuel) (ihA : Q
           exact keyC _ _ (ihE fs _ s1 s2 r2 hfs hbr he2) h
   | whileU isUntil cond body =>
     simp only [noExit, Bool.and_eq_true] at hne
-    simp only [exec] at h
+    (rw [exec.eq_def] at h; simp only at h)
     split at h
     · simp at h
     · rename_i s1 r1 he
       exact keyC _ _ (ihW fs isUntil cond body s s1 _ r1 hfs hne.1 hne.2 normal_ne_exit he) h
   | forIn n body =>
     simp only [noExit] at hne
-    simp only [exec] at h
+    (rw [exec.eq_def] at h; simp only at h)
     split at h
     · simp at h
     · rename_i s1 r1 he
       exact keyC _ _ (ihF fs n body s s1 _ r1 hfs hne normal_ne_exit he) h
   | case arms =>
     simp only [noExit] at hne
-    simp only [exec] at h
+    (rw [exec.eq_def] at h; simp only at h)
     split at h
     · simp at h
     · rename_i s1 r1 he
       exact keyC _ _ (ihC fs arms false s s1 _ r1 hfs hne normal_ne_exit he) h
   | group c =>
     simp only [noExit] at hne
-    simp only [exec] at h
+    (rw [exec.eq_def] at h; simp only at h)
     split at h
     · simp at h
     · rename_i s1 r1 he
       exact keyC _ _ (ihE fs c s s1 r1 hfs hne he) h
   | subshell c =>
-    simp only [exec] at h
+    (rw [exec.eq_def] at h; simp only at h)
     split at h
     · simp at h
     · exact key _ _ normal_ne_exit h
   | call f =>
-    simp only [exec] at h
+    (rw [exec.eq_def] at h; simp only at h)
     split at h
     · exact key _ _ normal_ne_exit h
     · rename_i body hf
@@ -249,40 +251,44 @@ private theorem qstep_exec (fuel : Nat) (ihE : QE fuel) (ihL : QL fuel) (ihA : Q
         · exact key _ _ normal_ne_exit h
         · exact key _ _ h1 h
   | brk n =>
-    simp only [exec] at h
+    (rw [exec.eq_def] at h; simp only at h)
     split at h
     · exact key _ _ normal_ne_exit h
     · exact key _ _ (by intro hh; cases hh) h
   | cont n =>
-    simp only [exec] at h
+    (rw [exec.eq_def] at h; simp only at h)
     split at h
     · exact key _ _ normal_ne_exit h
     · exact key _ _ (by intro hh; cases hh) h
   | ret code =>
     cases code <;>
-    · simp only [exec] at h
+    · (rw [exec.eq_def] at h; simp only at h)
       split at h
       · exact key _ _ (by intro hh; cases hh) h
       · exact key _ _ normal_ne_exit h
   | exit code => simp [noExit] at hne
-  | setOpt o on => simp only [exec] at h; exact key _ _ normal_ne_exit h
+  | setOpt o on => (rw [exec.eq_def] at h; simp only at h); exact key _ _ normal_ne_exit h
   | cmdsubst c =>
-    simp only [exec] at h
+    (rw [exec.eq_def] at h; simp only at h)
     split at h
     · simp at h
     · exact key _ _ normal_ne_exit h
   | evalC c =>
     simp only [noExit] at hne
-    simp only [exec] at h
+    (rw [exec.eq_def] at h; simp only at h)
     split at h
     · simp at h
     · rename_i s1 r1 he
       exact key _ _ (ihE fs c s s1 r1 hfs hne he) h
   | pipe codes lastc =>
-    simp only [exec] at h
+    (rw [exec.eq_def] at h; simp only at h)
     split at h
     · simp at h
     · exact key _ _ normal_ne_exit h
+  | fault k => (rw [exec.eq_def] at h; simp only at h); exact key _ _ normal_ne_exit h
+  | callT f =>
+    (rw [exec.eq_def] at h; simp only at h)
+    exact ihE fs (.call f) s s' r hfs rfl h
 
 private theorem qstep_list (fuel : Nat) (ihE : QE fuel) (ihL : QL fuel) : QL (fuel + 1) := by
   intro fs cs s s' r hfs hne h
@@ -404,7 +410,7 @@ private theorem q_all (fuel : Nat) : QE fuel ∧ QL fuel ∧ QA fuel ∧ QW fuel
   induction fuel with
   | zero =>
     refine ⟨?_, ?_, ?_, ?_, ?_, ?_⟩
-    · intro fs c s s' r _ _ h; simp [exec] at h
+    · intro fs c s s' r _ _ h; (rw [exec.eq_def] at h; simp at h)
     · intro fs cs s s' r _ _ h; simp [execList] at h
     · intro fs aos s s' r r' _ _ _ h; simp [execAO] at h
     · intro fs isUntil cond body s s' r r' _ _ _ _ h; simp [loopW] at h
@@ -452,9 +458,9 @@ theorem bang_never_exits (fuel : Nat) (fs : List Cmd) (sup : Bool) (c : Cmd) (s 
     (hfs : noExitFuncs fs) (hc : noExit c = true)
     (h : exec fuel fs sup (.bang c) s = some (s', r)) : r.flow ≠ .exit := by
   cases fuel with
-  | zero => simp [exec] at h
+  | zero => (rw [exec.eq_def] at h; simp at h)
   | succ fuel =>
-    simp only [exec] at h
+    (rw [exec.eq_def] at h; simp only at h)
     split at h
     · simp at h
     · rename_i s1 r1 he
@@ -480,7 +486,7 @@ theorem if_condition_failure_never_exits (fuel : Nat) (fs : List Cmd) (sup : Boo
     ∃ s1 r1, exec fuel fs true cond s = some (s1, r1) ∧ r1.flow ≠ .exit ∧
       (r.flow = .exit → r1.flow = .normal ∧ r1.code = 0 ∧
         ∃ s2, exec fuel fs sup thn s1 = some (s2, r) ∧ s' = { s2 with last := r.code }) := by
-  simp only [exec] at h
+  (rw [exec.eq_def] at h; simp only at h)
   split at h
   · simp at h
   · rename_i s1 r1 he
@@ -521,7 +527,7 @@ theorem if_else_condition_failure_never_exits (fuel : Nat) (fs : List Cmd) (sup 
       (r.flow = .exit → r1.flow = .normal ∧
         ∃ s2, exec fuel fs sup (if r1.code = 0 then thn else els) s1 = some (s2, r) ∧
           s' = { s2 with last := r.code }) := by
-  simp only [exec] at h
+  (rw [exec.eq_def] at h; simp only at h)
   split at h
   · simp at h
   · rename_i s1 r1 he
@@ -589,9 +595,9 @@ theorem while_condition_failure_never_exits (fuel : Nat) (fs : List Cmd) (sup is
     (hb : neverExits fs sup body)
     (h : exec fuel fs sup (.whileU isUntil cond body) s = some (s', r)) : r.flow ≠ .exit := by
   cases fuel with
-  | zero => simp [exec] at h
+  | zero => (rw [exec.eq_def] at h; simp at h)
   | succ fuel =>
-    simp only [exec] at h
+    (rw [exec.eq_def] at h; simp only at h)
     split at h
     · simp at h
     · rename_i s1 r1 he
@@ -608,9 +614,9 @@ example : neverExits [] false .probe ∧ noExit (.group (.leaf 1 [2, 2, 0])) = t
   refine ⟨?_, by decide, by decide +kernel⟩
   intro fuel s s' r h
   cases fuel with
-  | zero => simp [exec] at h
+  | zero => (rw [exec.eq_def] at h; simp at h)
   | succ fuel =>
-    simp only [exec, post, Option.some.injEq] at h
+    (rw [exec.eq_def] at h; simp only [post, Option.some.injEq] at h)
     simp at h
     rw [← h.2]; exact normal_ne_exit
 
@@ -671,18 +677,18 @@ theorem andor_exit_only_from_final_operand (fuel : Nat) (fs : List Cmd) (sup : B
     (h2 : noExitAO rest = true) (hl : neverExits fs sup (finalOp first rest))
     (h : exec fuel fs sup (.andOr first rest) s = some (s', r)) : r.flow ≠ .exit := by
   cases fuel with
-  | zero => simp [exec] at h
+  | zero => (rw [exec.eq_def] at h; simp at h)
   | succ fuel =>
     cases rest with
     | nil =>
-      simp only [exec, Bool.or_false] at h
+      (rw [exec.eq_def] at h; simp only [Bool.or_false] at h)
       split at h
       · simp at h
       · rename_i s1 r1 he
         have hf : r1.flow ≠ .exit := hl fuel s s1 r1 he
         exact execAO_ne fs sup hfs fuel _ s1 r1 s' r rfl hf (by intro c hc; simp [lastAO] at hc) h
     | cons a c rest2 =>
-      simp only [exec, Bool.or_true] at h
+      (rw [exec.eq_def] at h; simp only [Bool.or_true] at h)
       split at h
       · simp at h
       · rename_i s1 r1 he
@@ -702,9 +708,11 @@ example : neverExits [] false (finalOp (.leaf 1 [1])
   refine ⟨?_, by decide +kernel⟩
   intro fuel s s' r h
   cases fuel with
-  | zero => simp [exec] at h
+  | zero => (rw [exec.eq_def] at h; simp at h)
   | succ fuel =>
-    simp only [finalOp, lastAO, Option.getD_some, exec, post, Option.some.injEq] at h
+    simp only [finalOp, lastAO, Option.getD_some] at h
+    rw [exec.eq_def] at h
+    simp only [post, Option.some.injEq] at h
     simp at h
     rw [← h.2]; exact normal_ne_exit
 
@@ -770,7 +778,7 @@ theorem errexit_off_in_cmdsubst_unless_inherit (fuel : Nat) (fs : List Cmd) (sup
       (r.flow = .normal ∨ (r.flow = .exit ∧ sup = false ∧ s.errexit = true ∧ r.code ≠ 0)) ∧
       (r.flow = .exit ↔ (sup = false ∧ s.errexit = true ∧ r.code ≠ 0)) ∧
       s'.errexit = s.errexit := by
-  simp only [exec, hi, Bool.and_false] at h
+  (rw [exec.eq_def] at h; simp only [hi, Bool.and_false] at h)
   split at h
   · simp at h
   · rename_i s1 r1 he
@@ -808,7 +816,7 @@ theorem errexit_exits_at_failing_simple_command (fuel : Nat) (fs : List Cmd) (id
     (h : exec (fuel + 1) fs false (.leaf id codes) s = some (s', r)) :
     (r.flow = .exit ↔ r.code ≠ 0) ∧ (r.flow = .normal ↔ r.code = 0) ∧ s'.last = r.code ∧
       r.code = codeAt codes (getCount s.counts id) := by
-  simp only [exec, post, Option.some.injEq] at h
+  (rw [exec.eq_def] at h; simp only [post, Option.some.injEq] at h)
   by_cases hz : codeAt codes (getCount s.counts id) = 0 <;>
     simp [he, hz, Flow.isNormal] at h <;> obtain ⟨rfl, rfl⟩ := h <;> simp [hz]
 
